@@ -75,6 +75,11 @@ NFields == { [c |-> "nfields", n |-> n, key |-> k, cmp |-> m] : n \in { 0, 1, 2,
 
 SysNums == { 0, 1, 15, 16, 31, 32, 33, 63, 64, 1023, 1024, 2016, 2046, 2047 }
 SysNum == { [c |-> "sysnum", a |-> a, b |-> b] : a \in SysNums, b \in SysNums }
+\* numbers no mask bit stands for (strings: some exceed TLC's integers); alone or next to a valid syscall
+SysBig == { [c |-> "sysbig", v |-> v, with |-> w] :
+              v \in { "2048", "2079", "2080", "65536", "2147483647", "2147483648", "4294967295", "4294967296", "4294967297", "4294969343",
+                      "8589934594", "9223372036854775807", "-1", "-4294967295" },
+              w \in { "none", "before", "after" } }
 
 \* C13: every header word of a valid rule replaced by boundary values; truncations
 HeaderWords == 1..260
@@ -90,7 +95,7 @@ Flags == FlagCases
 
 All == (IF "fop" \in Family THEN Fop ELSE {}) \cup (IF "shape" \in Family THEN Shape ELSE {})
        \cup (IF "cmp" \in Family THEN Cmp ELSE {}) \cup (IF "watch" \in Family THEN Watch ELSE {})
-       \cup (IF "nfields" \in Family THEN NFields ELSE {}) \cup (IF "sysnum" \in Family THEN SysNum ELSE {})
+       \cup (IF "nfields" \in Family THEN NFields ELSE {}) \cup (IF "sysnum" \in Family THEN SysNum \cup SysBig ELSE {})
        \cup (IF "decode" \in Family THEN Decode ELSE {}) \cup (IF "flags" \in Family THEN Flags ELSE {})
 
 Init == c \in All
